@@ -676,7 +676,9 @@ def preprocess_observation(
     elif isinstance(observation_space, spaces.MultiDiscrete):
         # Need to add batch dimension prior to splitting
         space_shape = (sum(observation_space.nvec),)
-        observation: torch.Tensor = maybe_add_batch_dim(observation, space_shape)
+        observation: torch.Tensor = maybe_add_batch_dim(
+            observation, observation_space.shape
+        )
 
         # Tensor concatenation of one hot encodings of each Categorical sub-space
         observation = torch.cat(
